@@ -399,7 +399,8 @@ def c10(rec):
     for o in rec.ops:
         if o["op"][0] == "reuse" and o["returned"] and o["exc"] is None and "same" in o:
             want = o["op"][1].get("max_workers")
-            if o["same"] and want is not None and not o["broken"] and not kill:
+            if o["same"] and want is not None and not o["broken"] and not kill \
+                    and o.get("started_before", True):
                 if o.get("stale_sentinels") and not timed:
                     out.append(dict(signature=f"C10:stale-sentinel:{o['stale_sentinels']}|cause={c}",
                                     msg=f"resize to {want} returned leaving {o['stale_sentinels']} "
